@@ -1,2 +1,59 @@
-(* Props/C11.v — property C11 (statements only).  Filled as proofs land. *)
-From PX.Lib Require Import Base.
+(* Props/C11.v — property C11: the writer always emits balanced envelopes with
+   correct counts.  Statements only.  Histories: Spec/C11_spec.v. *)
+From Coq Require Import String.
+From PX.Lib Require Import Base PyStr.
+From PX.Model Require Import Path Segment Raw Reader Writer.
+From PX.Spec Require Import C01_spec C04_spec C11_spec.
+From PX.Proofs Require Import C04_reader C11_writer.
+
+(* The writer never raises on a well-nested history of writable segments. *)
+Theorem C11_writer_total :
+  forall dl rep eol h, history_ok dl h = true -> exists es, w_run_close (w0 dl rep eol) dl h = Ok es.
+Proof. exact writer_total. Qed.
+Print Assumptions C11_writer_total.
+
+(* Every prefix of such a history is one: Close may be called after any prefix. *)
+Theorem C11_prefix_closed :
+  forall dl h1 h2, history_ok dl (h1 ++ h2) = true -> history_ok dl h1 = true.
+Proof. exact prefix_ok. Qed.
+Print Assumptions C11_prefix_closed.
+
+(* What is written (history, then Close) — trailers supplied with any counts,
+   omitted inside an enclosing trailer, or left to Close — is read back by the
+   reader model without a single envelope error and with nothing left open:
+   every trailer carries its header's control number and the true count
+   (by C04_reader_exact this is what "no envelope error" means).
+   Side conditions, each shown necessary by a counterexample in C11_writer.v:
+   the writer's delimiters do not occur in the ids IEA/GE/SE nor among the
+   digits, and no ISA13 ends with the component separator. *)
+Theorem C11_writer_accepted :
+  forall dl rep eol h es,
+  trailer_ids_writable dl -> count_digits_writable dl -> isa_ids_writable dl h ->
+  distinct_delims dl = true -> (length rep = 1 /\ free_of dl rep = true) ->
+  history_ok dl h = true -> w_run_close (w0 dl rep eol) dl h = Ok es ->
+  exists out xf,
+    run_steps dl (fresh false) (map (rt dl) es) = Ok (out, xf) /\
+    Forall (fun e => env_codes e = []) out /\ cleanup xf = [].
+Proof. exact writer_accepted. Qed.
+Print Assumptions C11_writer_accepted.
+
+(* Non-trailer segments are written unchanged and in order; the ISA only gets
+   the writer's own separators in ISA11 (00501) and ISA16. *)
+Theorem C11_segments_kept :
+  forall dl rep eol h es,
+  trailer_ids_writable dl ->
+  history_ok dl h = true -> w_run_close (w0 dl rep eol) dl h = Ok es ->
+  filter (fun s => negb (is_trailer s)) es = map (isa_fix dl rep) (filter (fun s => negb (is_trailer s)) h).
+Proof. exact writer_keeps_segments. Qed.
+Print Assumptions C11_segments_kept.
+
+(* Non-vacuity: a real interchange satisfies every hypothesis above. *)
+Theorem C11_hypotheses_satisfiable :
+  let d := {| seg_term := "~"%char; ele_term := "*"%char; subele_term := ":"%char |} in
+  let p := fun t => parse_seg d (list_ascii_of_string t) in
+  let h := [p "ISA*00*          *00*          *ZZ*ZZ000          *ZZ*ZZ001          *030828*1128*U*00401*000010121*0*T*:"%string;
+            p "GS*HC*ZZ000*ZZ001*20030828*1128*17*X*004010X098A1"%string; p "ST*837*11280001"%string;
+            p "REF*87*004010X098A1"%string; p "SE*9*11280001"%string; p "GE*7*17"%string] in
+  history_ok d h = true /\ distinct_delims d = true /\ trailer_ids_writable d /\ count_digits_writable d /\ isa_ids_writable d h.
+Proof. exact real_history_ok. Qed.
+Print Assumptions C11_hypotheses_satisfiable.
